@@ -281,6 +281,20 @@ def classify_ast_diff(src, d, tree=None, formatted=""):
                 if "fmt-param-range-start-merges" in structure_findings(node_at(tree, "/".join(segs[:i])), formatted):
                     return "fmt-param-range-start-merges"
 
+    def mixed_strings(x):
+        """string literals with both quote kinds anywhere inside the original subtree"""
+        if isinstance(x, dict):
+            l_ = x.get("Literal")
+            if isinstance(l_, dict) and isinstance(l_.get("String"), str) and "'" in l_["String"] and '"' in l_["String"]:
+                return True
+            return any(mixed_strings(v) for v in x.values())
+        if isinstance(x, list):
+            return any(mixed_strings(v) for v in x)
+        return False
+    if b is None and isinstance(a, (dict, list)) and mixed_strings(a) and re.search(r"'{3,}|\"{3,}", formatted or ""):
+        # an operand that is such a string literal came back as several tokens, so the node above it changed its kind
+        return "fmt-string-mixed-quotes"
+
     def lit(x):
         return x.get("Literal") if isinstance(x, dict) and "Literal" in x else None
     la, lb = lit(a), lit(b)
